@@ -147,7 +147,7 @@ func childMain(job Job) {
 func execCase(w *worker, c Case) Outcome {
 	switch c.Kind {
 	case "source":
-		return execSource(c.Src)
+		return execSourceGen(c.Src, c.Gen)
 	case "lib":
 		return execLibCase(w, c)
 	case "limit":
